@@ -143,7 +143,8 @@ pub fn dangling_probe(store: &AnnotationStore) -> Option<(String, String)> {
         }
     }
     // serialisation
-    match catch(|| store.to_json_string(store.config())) {
+    // (an explicit JSON configuration: a store loaded from CSV/CBOR carries that data format in its own config)
+    match catch(|| store.to_json_string(&Config::default())) {
         Err(m) => Some(("dangling-panic@to_json".into(), msg_class(&m))),
         Ok(Err(e)) => Some(("to_json-error".into(), msg_class(&format!("{:?}", e)))),
         Ok(Ok(_)) => None,
